@@ -307,7 +307,7 @@ def c11d(ctx):
                 ok = ok and out == want
             for a in (a_c[0], a_i[0]):
                 c = tab.atom_objs[a].expr
-                ok = ok and unparse(c.func.value) == 'self.coverage' and [unparse(x) for x in c.args] == ['bbox', 'self.grid.srs']
+                ok = ok and same(c.func.value, 'self.coverage') and [unparse(x) for x in c.args] == ['bbox', 'self.grid.srs']
         ctx.check(ok, '%s.intersects:table' % cname, 'CONTAINS if the coverage contains the box, INTERSECTS if it intersects, else NONE (box in the grid SRS)', f,
                   fail='%s.intersects does not classify contains > intersects > none' % cname)
     m = ctx.repo.mod(S)
